@@ -24,6 +24,9 @@ def install(eng):
                    lambda seed, focus: enum_graph.replay(None, None, None, seed))
     eng.enumerator("tracking-backend-scripts", ["C07", "C08", "C09", "C17"], BACKEND + CALLBACKS[:1],
                    lambda seed, focus: enum_backend.replay(None, None, None, seed))
+    eng.enumerator("cancel-many-scripts", ["C17"], ["gwf.plugins.cancel:cancel_many", "gwf.plugins.cancel:cancel",
+                                                     "gwf.backends.base:TrackingBackend.cancel"],
+                   lambda seed, focus: enum_backend.replay_cancel(None, None, None, seed))
     eng.enumerator("config-scripts", ["C20"], CONF, lambda seed, focus: enum_conf.replay(None, focus, None, seed))
     eng.enumerator("cli-status-dryrun-run", ["C02", "C05", "C06", "C10"],
                    SCHED + CALLBACKS + ["gwf.plugins.run:run", "gwf.plugins.status:status"] + FILTERS, enum_cli.run_c05)
